@@ -250,12 +250,16 @@ _DEFAULT_PLAN = {"seed": 0, "run": "default-header", "hashseed": 0, "selection":
                  "env": {"listdir": {}, "extra_entries": {}, "clock": ["2026-01-01T00:00:00"], "git": "ok:edge", "stdout_mode": "block", "stdout_bufsize": 4096}, "faults": [], "toolchain": {"a": ["g++", "c++14"]}, "probe": {}}
 
 
-def default_header(ctx):
-    """The single-file package for the default selection (generated once per context)."""
-    if not hasattr(ctx, "_default_header"):
-        res, data = ctx.pool.run(dict(_DEFAULT_PLAN))
-        ctx._default_header = data if res["status"] == 0 and not res["hang"] else None
-    return ctx._default_header
+def default_header(ctx, io=True):
+    """The single-file package for the default selection, with or without I/O support (generated
+    once per context)."""
+    attr = "_default_header" if io else "_default_header_noio"
+    if not hasattr(ctx, attr):
+        plan = copy.deepcopy(_DEFAULT_PLAN)
+        plan["selection"]["io"] = bool(io)
+        res, data = ctx.pool.run(plan)
+        setattr(ctx, attr, data if res["status"] == 0 and not res["hang"] else None)
+    return getattr(ctx, attr)
 
 
 def evaluate_session(ctx, splan, want_events=False):
@@ -354,7 +358,7 @@ def evaluate_case(ctx, case, want_events=False):
     if "edge_program" in case:
         from . import edge as _edge
 
-        hdr = default_header(ctx)
+        hdr = default_header(ctx, io=case["edge_program"] not in _edge.NOIO_PROGRAMS)
         viol = []
         if hdr is None:
             return {"twin": {"events": None}, "faulty": None, "violations": [], "trace_hashes": [], "harness_error": None, "inconclusive": True}
